@@ -191,6 +191,44 @@ CHECKS = {
         note="Trusted: TLC, harness/lexers.py (self-tested at every run), PyYAML round trip of corpus inputs. The "
              "--outdir string embedded in setup.py is normalised.",
     ),
+    "C02": dict(
+        level="model_checking",
+        design="DESIGN.md section 4 / C01-C02",
+        technique="TLA+ spec CallBridge (call protocol CallerInvoke/LibEnter/LibExit/CallerReturn with a contract that "
+                  "is a function of the declaration only) model-checked with TLC; run-time traces of a generated C "
+                  "driver and an instrumented C++ subject library, wrapped by the real Shroud and built with gcc/g++, "
+                  "validated call by call against Trace_CallBridge by TLC",
+        text="TLC checks totality and position consistency of the contract for every small signature (supplied, "
+             "defaulted, implied, hidden, in/out/inout parameters, methods). Conformance: a C++ library of 18 free "
+             "functions (native scalars, bool, enum, pointers in/out/inout, references, const char*, std::string "
+             "in/inout/out, struct by value/pointer/reference, arrays, every arity of defaulted arguments, overloads, "
+             "template instantiations) and a class (constructor, destructor, const/static/instance methods, object "
+             "arguments, functions returning instances) logs what it receives and produces; a C driver compiled as C "
+             "against the generated headers calls every entry point with boundary values and logs what it supplies "
+             "and gets back; TLC validates every call: right entry point, same values in declaration order, right "
+             "'this', same result and output arguments.",
+        note="Trusted: TLC, rt/vt.c (single flushed trace channel), the generated driver and subject library, gcc/g++ 12. "
+             "Values: 32-bit ints, doubles that are multiples of 1/4, short ASCII strings. C names are read from the "
+             "generated headers (their predictability is decided by C08).",
+    ),
+    "C01": dict(
+        level="model_checking",
+        design="DESIGN.md section 4 / C01-C02",
+        technique="same CallBridge specification with the Fortran conversions (trailing-blank trimming, blank padding "
+                  "or truncation to the declared length, implied and defaulted arguments, logical<->bool); run-time "
+                  "traces of a generated Fortran driver using only the generated module and documented generic names, "
+                  "built with gfortran + g++, validated by TLC; configurations F_CFI off/on (thorough: debug off/on)",
+        text="The Fortran driver passes boundary integers and reals, logicals, empty / blank-padded / exact-fit "
+             "strings, fixed-length output strings shorter and longer than what the library writes, array sections "
+             "including zero-length ones, every default-argument arity, overloads through their generic name, "
+             "template instantiations, and drives a class through its type-bound procedures; the instrumented library "
+             "logs what arrives. TLC validates every call against the contract: character input arrives trimmed, "
+             "implied sizes equal the section extents, omitted arguments arrive as the C++ defaults, results and "
+             "output arguments come back exactly (strings padded or truncated to the declared length, allocatable "
+             "results with the exact length). The same driver source is used for every configuration.",
+        note="Trusted as C02, plus gfortran 12. Not yet covered: language c subject library, struct rows in Fortran, "
+             "std::vector and char** rows.",
+    ),
 }
 
 ALL = ["C%02d" % i for i in range(1, 19)]
